@@ -183,6 +183,9 @@ def body(col: Collector, case):
         if type(e).__name__ == "ConvergenceError":
             col.exclude("joint-init-weibull-fit-not-converged")
             return
+        if gen.is_zero_scale_refusal(e):
+            col.exclude("sampler-refused:zero-initial-scale")
+            return
         col.fail("fit", "unexpected-exception:" + exc_bucket(e), case, observed=repr(e), expected="fit runs")
         return
     nb = int(akw["n_burn_in_iter_frac"] * akw["n_iter"])
